@@ -187,7 +187,7 @@ CHECKS['C07'] = dict(
     rule=('part A: non-trivial iff some query matched at least one but not the only entry of its client (ordering, near misses and negative items matter); part B: non-trivial iff a '
           'slashable request (attest/propose) that would have advanced stored state was refused; distinct = sha256 of the case JSON'),
     essential=['a:queries-model-allows', 'a:queries-model-denies', 'b:refused-positions', 'b:refused-positions-addressed-by-public-key', 'b:allowed-and-served-positions',
-               'b:refused-slashable-requests-that-would-have-advanced-state'] + ['b:op-' + o for o in ['sign', 'multisign', 'attest', 'attests', 'propose', 'list', 'lock-account',
+               'b:refused-slashable-requests-that-would-have-advanced-state', 'b:wallet-operation-spelled-with-a-suffix'] + ['b:op-' + o for o in ['sign', 'multisign', 'attest', 'attests', 'propose', 'list', 'lock-account',
                'unlock-account', 'lock-wallet', 'unlock-wallet', 'create']],
     assumptions=['names and patterns over the alphabet {W,w,a,b,1,2,0,space}: ASCII only, so Unicode case folding plays no part'],
 )
